@@ -189,7 +189,9 @@ def cardLoop : List Bool → St → Py Unit × St × List Bool
 
 def cardStep (o : CardOpts) (ts : List Bool) (s : St) : StepOut :=
   match listen o.target s with
-  | (.error e, s1) => (.error e, s1, ts)
+  | (.error e, s1) =>
+    -- repaired (F30): a CommunicationError raised inside listen() means "no target this round"
+    if isCommErr e then (.ok .none, s1, ts) else (.error e, s1, ts)
   | (.ok none, s1) => (.ok .none, s1, ts)
   | (.ok (some _), s1) =>
     let (dv, s2) := o.discover.run .true_ .card .discover s1
